@@ -279,7 +279,8 @@ def run(repo, chk):
     is_m = "isinstance(fn, types.MethodType)"
     ok = len(mt) == 1 and (frs.has("el = el.clone(name=real_fn)", when=[is_m]) and frs.has("real_fn = _dig(fn.__func__)", when=[is_m]) or frs.has("el = el.clone(name=_dig(fn.__func__))", when=[is_m]))
     fe = repo.func("selector._find_eval_env")
-    frp = fe.node.args.args[1].arg
+    frame_names = sorted({n.value.id for n in walk_local(fe.node) if isinstance(n, ast.Attribute) and n.attr == "f_locals" and isinstance(n.value, ast.Name)})
+    frp = frame_names[0] if len(frame_names) == 1 else "<frame>"
     piles = [n for n in walk_local(fe.node) if isinstance(n, ast.Call) and norm(n.func) == "DictPile"]
     from ..astq import expand as _expand
     def _src(a):
